@@ -43,6 +43,7 @@ func runC11(c *Ctx) {
 	c.Rule("C11.19", "the tree on disk changes only through the flush: the data file (pages and the header with the allocation pointer) is written only inside the exclusive section of the flush — a header or page written on its own makes the file describe an allocation the pages do not have, and after a crash the reloaded tree reaches pages twice or not at all (C04.1)")
 	checkDataFileWrites(c, "C11.19")
 	c02RecordDescribes(c, "C11.20")
+	ruleSeparatorIsFirstKey(c, "C11.21")
 	// advisory: direct indexing
 	for _, name := range []string{"storage.(*btreeNode).updateCell", "storage.(*btreeNode).split", "storage.WALBatch.replay"} {
 		f := c.W.F(name)
